@@ -472,6 +472,46 @@ def forgery_work(arg):
                     viols.setdefault((oracle, sig), [0, {"part": "forgery", "label": label}, "%s | %s" % (label, msg)])[0] += 1
             finally:
                 w.close()
+    if k == 1:
+        # two handshakes half-open at the same time: client 1 answers, under ITS OWN key, with the token issued to
+        # client 0 (tokens travel in clear in the server hellos); client 0's answer is withheld / arrives later
+        for variant in ("other's answer withheld", "other's answer arrives two ticks later"):
+            total += 1
+            mon = HandshakeMonitor()
+            w = World(root_index=ROOT, key_offset=KOFF, monitors=[mon], n_clients=2)
+            try:
+                done = False
+                for _ in range(16):
+                    w.tick()
+                    crs = [d for d in w.net if len(d.data) >= 20 and d.data[12] == CR]
+                    if not done and len(crs) == 2:
+                        a = next(d for d in crs if d.src == "c0")
+                        b = next(d for d in crs if d.src == "c1")
+                        t0 = w.ctxt.temp_connections.get(w.clients[0].addr)
+                        t1 = w.ctxt.temp_connections.get(w.clients[1].addr)
+                        if t0 is not None and t1 is not None:
+                            m = HandshakeClientChallengeResponseMessage()
+                            m.token = t0.token
+                            body = b.data[20:22] + m.dumpb()
+                            hdr = b.data[:13] + struct.pack(">H", len(body)) + b.data[15:20]
+                            b.data = hdr + AESGCM(w.clients[1].conn.session_key_bytes).encrypt(hdr[:12], body, hdr)
+                            if variant.endswith("withheld"):
+                                w.net.remove(a)
+                            else:
+                                a.release_tick += 2
+                            done = True
+                    mon.check_clients(w, w.root_key.getPublicKey())
+                promoted = w.clients[1].addr in w.ctxt.connections
+                outcomes.inc("CR with the other half-open connection's token (%s) -> promoted=%s" % (variant, promoted))
+                if not done:
+                    viols.setdefault(("harness", "the two challenge responses were never in flight together"), [0, {"part": "forgery", "label": variant}, variant])[0] += 1
+                if promoted:
+                    viols.setdefault(("promotion", "a connection is promoted by a challenge response that carries the token issued to ANOTHER half-open connection"),
+                                     [0, {"part": "forgery", "label": "cross-token: " + variant}, variant])[0] += 1
+                for oracle, sig, msg in mon.violations:
+                    viols.setdefault((oracle, sig), [0, {"part": "forgery", "label": "cross-token: " + variant}, "%s | %s" % (variant, msg)])[0] += 1
+            finally:
+                w.close()
     return total, dict(outcomes), viols
 
 
